@@ -156,17 +156,20 @@ def run_case(c):
             r["object_id"] = float(i + 2)
             used.append((R, pos))
         m = motl_from_rows(rows)
-        out, e = call(cryomap.place_object, tpl, m, volume_shape=(14 * npart + 20, 32, 32))
+        # both documented call forms: one template for all particles / a list with one template per particle (here: the marker and its mirror image)
+        as_list = bool(c["seed"] % 2)
+        tpls = [tpl if i % 2 == 0 else tpl[:, ::-1, :].copy() for i in range(npart)] if as_list else [tpl] * npart
+        out, e = call(cryomap.place_object, (tpls if as_list else tpl), m, volume_shape=(14 * npart + 20, 32, 32))
         if e is not None:
             return {"raised": f"place_object {type(e).__name__}: {e}"}
         exp = np.zeros_like(out)
         cen = box // 2
         for i, (R, pos) in enumerate(used):
-            for v in np.argwhere(tpl > 0.1) - cen:
+            for v in np.argwhere(tpls[i] > 0.1) - cen:
                 tgt = (pos - 1 + R @ v).astype(int)  # 1-based particle position -> 0-based voxel
                 exp[tuple(tgt)] = rows[i]["object_id"]
         if not np.array_equal(out, exp):
-            return {"what": "place_object: stamped voxels differ from rotated template at (position - 1) with the colouring value", "n_out": int((out > 0).sum()), "n_expected": int((exp > 0).sum())}
+            return {"what": "place_object: stamped voxels differ from rotated template at (position - 1) with the colouring value", "n_out": int((out > 0).sum()), "n_expected": int((exp > 0).sum()), "template_list": as_list}
         return None
     # symmetrisation
     fold = c["fold"]
